@@ -13,11 +13,11 @@ from sa.program import load_sources  # noqa: E402
 
 root = sys.argv[1] if len(sys.argv) > 1 else '/repo'
 trees = {p: ast.parse(t) for p, t in load_sources(root).items()}
-names = sorted(inline.census(trees))
+names = sorted(inline.census(trees)) + sorted(inline.census_constants(trees))
 with open(inline.BASELINE_FILE, 'w') as fh:
     fh.write('# census of functions on the reference tree; functions not '
              'listed here are\n# inlined into their callers before the '
              'rules run (sa/inline.py)\n')
     for n in names:
         fh.write(n + '\n')
-print(len(names), 'functions')
+print(len(names), 'functions and module-level literal constants')
